@@ -50,6 +50,12 @@ func nodeIndexIn(fn *Func, b *cfg.Block, n ast.Node) int {
 // isLimitTest: a comparison against the decoder's maxCandidates; returns the counter
 // expression and which polarity of the condition means "limit reached".
 func isLimitTest(fn *Func, e ast.Expr) (counter ast.Expr, reachedWhenTrue bool, ok bool) {
+	if call, isCall := ast.Unparen(e).(*ast.CallExpr); isCall {
+		// the test made by a one-line predicate: d.limitReached(count)
+		if body := fn.inlinePredicateCall(call); body != nil {
+			e = body
+		}
+	}
 	be, isBe := ast.Unparen(e).(*ast.BinaryExpr)
 	if !isBe {
 		return nil, false, false
